@@ -98,3 +98,33 @@ class Hyperu(FaaWrapper): qual = A('_hyperu'); tag = 'nthderiv.hyperu'; scalars 
 # truncation degrees at which the unrolled obligations discharge quickly and reliably (non-linear identities get hard fast)
 for _k, _D in {'_erf': (1, 2, 3), '_erfi': (1, 2, 3), '_log1p': (1, 2, 3), '_logit': (1, 2), '_expit': (1, 2)}.items():
     type(REG[_k]).bounded_D = _D; type(REG[_k]).bounded_D_thorough = _D
+
+
+@register
+class OdeSolutions(Contract):
+    """Griewank-Walther Prop. 13.1: v solves b(u) v' - a(u) v = c(u); the helper fills v[1..] from v[0] (unrolled mode)"""
+    qual = '_taylor_polynomials_of_ode_solutions'; arrays = ('a_data', 'b_data', 'c_data', 'u_data', 'v_data'); modifies = ('v_data',); returns = 'v_data'
+    cfgs = {'distinct': {}}; bounded_D = (1, 2, 3, 4); bounded_D_thorough = (1, 2, 3, 4); property_ids = ('C01', 'C14')
+    def requires(self, c): return [c.pre['b_data'][0] != 0]
+    def ensures(self, c):
+        D = ival(c.D); p = c.pre; L = lambda nm: [p[nm][z3.IntVal(i)] for i in range(D)]
+        exp = SI.ode_solution(L('a_data'), L('b_data'), L('c_data'), L('u_data'), p['v_data'][z3.IntVal(0)]); v = c.cur('v_data')
+        return [('v[%d] = coefficient %d of the ODE solution' % (d, d), v[z3.IntVal(d)] == exp[d]) for d in range(D)]
+    def sample_x0(self, name, rng): return round(rng.uniform(0.4, 1.2) * 16) / 16
+    def oracle(self, inp, scal, cfg): return {'v_data': SI.ode_solution(inp['a_data'], inp['b_data'], inp['c_data'], inp['u_data'], inp['v_data'][0])}
+
+
+@register
+class Dawsn(Contract):
+    qual = A('_dawsn'); arrays = ('x_data', 'out'); modifies = ('out',); returns = 'out'
+    cfgs = {'distinct': {}, 'out_none': {'out': None}}; bounded_D = (1, 2, 3, 4); bounded_D_thorough = (1, 2, 3, 4); property_ids = ('C01', 'C14')
+    def ensures(self, c):
+        D = ival(c.D); x = c.pre['x_data']; xs = [x[z3.IntVal(i)] for i in range(D)]; o = c.outarr()
+        one = [z3.RealVal(1)] + [z3.RealVal(0)] * (D - 1)
+        f0 = DER('scipy.special.dawsn')(z3.IntVal(0), x[z3.IntVal(0)])
+        exp = SI.ode_solution([-2 * v for v in xs], one, one, xs, f0)          # F' + 2 x F = 1
+        return [('out[%d] = coefficient %d of dawsn(x(t))' % (d, d), o[z3.IntVal(d)] == exp[d]) for d in range(D)]
+    def oracle(self, inp, scal, cfg):
+        import scipy.special
+        x = inp['x_data']; D = len(x); one = [1.0] + [0.0] * (D - 1)
+        return {self.out_key(cfg): SI.ode_solution([-2 * v for v in x], one, one, x, float(scipy.special.dawsn(x[0])))}
